@@ -31,8 +31,15 @@ class Ctx:
             return self._results[name]
         fn, title, floor = RULES[name]
         R = RuleResult(name, title, floor)
-        fn(self, R)
-        R.finish()
+        try:
+            fn(self, R)
+            R.finish()
+        except AnalysisError as e:
+            # a violating shape that was established before the analysis lost its footing
+            # is still a violation; otherwise the rule cannot vouch for the code
+            if not R.violations:
+                raise
+            R.note("analysis incomplete after the reported violation(s): %s: %s" % (type(e).__name__, e))
         self._results[name] = R
         return R
 
